@@ -140,6 +140,7 @@ where
 
         let hash = key.stable_hash();
         let mut pos = hash % self.capacity();
+        let start_pos = pos;
         let mut free_pos = None;
         let mut ret = None;
 
@@ -166,7 +167,11 @@ where
                 MapValueState::Valid => {}
             }
 
-            pos = self.next_pos(pos)
+            pos = self.next_pos(pos);
+
+            if pos == start_pos {
+                break;
+            }
         }
 
         if let Some(pos) = free_pos {
